@@ -193,3 +193,14 @@ mod test {
         println!("{}", SimpleHeuristic {}.evaluate(&Bitboard::from_fen_string_unchecked("rn2k2r/ppp2ppp/8/3pPP2/3P1q2/P1KB4/P1P4P/3R2N1 w kq - 0 14"), 0, true));
     }
 }
+
+#[cfg(inkayaku_verif)]
+impl SimpleHeuristic {
+    /// Piece-square table entry as used by `piece_square_value` (color 0 = white tables, 1 = black tables).
+    pub fn verif_psq(color: usize, stage: usize, piece: usize, square: usize) -> i32 {
+        if color == 0 { WHITE_TABLES[stage][piece - 1][square] } else { BLACK_TABLES[stage][piece - 1][square] }
+    }
+    pub fn verif_game_stage(board: &Bitboard) -> usize { Self::game_stage(board) }
+    pub fn verif_piece_value(state: &PlayerState) -> i32 { Self::piece_value(state) }
+    pub fn verif_piece_square_value(board: &Bitboard) -> i32 { Self::piece_square_value(board) }
+}
